@@ -7,6 +7,7 @@
 //! `(ID harness_error)` in both files.
 
 mod doc;
+mod extra;
 mod oracle;
 mod sexp;
 
@@ -17,7 +18,7 @@ use std::panic::{catch_unwind, AssertUnwindSafe};
 
 use tau_engine::core::parser::{parse_identifier, Expression, IdentifierParser, Tokeniser};
 use tau_engine::core::solve_expression;
-use tau_engine::{Object, Optimisations, Rule};
+use tau_engine::{Document, Object, Optimisations, Rule};
 
 use doc::{DObj, Recorder};
 use oracle::{Inputs, RegexCache};
@@ -311,16 +312,26 @@ fn observe(
     d: &DObj,
 ) -> (char, BTreeSet<String>) {
     let rec = Recorder::new(d);
-    let verdict = match guarded(|| solve_expression(expr, ids, &rec)) {
+    let verdict = observe_doc(expr, negated, ids, &rec);
+    (verdict, rec.take())
+}
+
+/// The same observation on any `Document` (whatever its representation).
+fn observe_doc(
+    expr: &Expression,
+    negated: &Expression,
+    ids: &std::collections::HashMap<String, Expression>,
+    d: &dyn Document,
+) -> char {
+    match guarded(|| solve_expression(expr, ids, d)) {
         None => 'p',
         Some(true) => 't',
-        Some(false) => match guarded(|| solve_expression(negated, ids, &rec)) {
+        Some(false) => match guarded(|| solve_expression(negated, ids, d)) {
             None => 'p',
             Some(true) => 'f',
             Some(false) => 'm',
         },
-    };
-    (verdict, rec.take())
+    }
 }
 
 fn yaml_examples<'a>(y: &'a serde_yaml::Value, name: &str) -> &'a [serde_yaml::Value] {
@@ -628,6 +639,9 @@ fn process(line: &str, ctx: &mut Ctx) -> Out {
         "pid" => case_pid(&id, &v, ctx),
         "find" => case_find(&id, &v),
         "rule" => case_rule(&id, &v, ctx),
+        "rep" => extra::case_rep(&id, &v),
+        "det" => extra::case_det(&id, &v),
+        "rt" => extra::case_rt(&id, &v),
         _ => None,
     }));
     match r {
